@@ -1206,6 +1206,10 @@ class FuncRun:
                     pass
             if not all(h in hs for h in kept):
                 raise VerifError("%s: a path reached cut %s of loop %d after the cut had been merged" % (self.fname, cv, k))
+            # ... and did not keep a cell value this path does not have
+            for ck, v0 in getattr(self, "cut_mem", {}).get(key, {}).items():
+                if not _same(st.mem.get(ck, _MISSING), v0):
+                    raise VerifError("%s: a path reached cut %s of loop %d after the cut had been merged, with a different %s%s" % (self.fname, cv, k, ck[0], list(ck[1])))
             raise PathEnd()
         self.cut_first.setdefault((head, st.entry_id), cv)
         self.parked.setdefault(key, []).append((st, k, body))
@@ -1279,6 +1283,7 @@ class FuncRun:
                     return True
             return False
         newmem = {}
+        kept_same = set()
         for ck, v0 in st0.mem.items():
             if dead(ck[0]):
                 continue
@@ -1287,6 +1292,7 @@ class FuncRun:
                 # every arrival holds the same value: the merged state holds it too (a cut is merged once, after all
                 # of its arrivals are parked -- nothing is generalised over iterations)
                 newmem[ck] = v0
+                kept_same.add(ck)
             elif ck in allowed:
                 lt = self.loc_type(ck[0], ck[1])
                 info = self.objs[ck[0]]
@@ -1297,6 +1303,10 @@ class FuncRun:
             elif ck[0] in self.pre_objs or any(ck in s_.mem for s_ in states[1:]):
                 raise VerifError("%s: loop %d changes %s%s which is not in its `modifies` clause" % (self.fname, k, ck[0], list(ck[1])))
         st.mem = newmem
+        if not hasattr(self, "cut_mem"):
+            self.cut_mem = {}
+        # cells the continuation keeps although the loop may modify them (all arrivals agreed): a late arrival must agree too
+        self.cut_mem[key] = {ck: newmem[ck] for ck in kept_same if ck in allowed}
         ev = Evaluator(self, st, self.old_mem, self.loop_env(st, k), phase="inv", assume=True)
         ev.havocked = set(allowed) - keep
         for lab, ast, txt in L["invariant"]:
